@@ -123,6 +123,13 @@ func (b *batchedEvents) UnmarshalMsg(bts []byte) (o []byte, err error) {
 		err = msgp.WrapError(err)
 		return
 	}
+	// Every element occupies at least one byte, so a header that announces more
+	// elements than there are bytes left is malformed; refuse it before allocating
+	// for the announced count.
+	if uint64(totalValues) > uint64(len(bts)) {
+		err = msgp.WrapError(msgp.ErrShortBytes)
+		return
+	}
 	b.events = make([]batchedEvent, totalValues)
 	for i := range b.events {
 		b.events[i].cfg = b.cfg
